@@ -45,6 +45,93 @@ fn vsrc_case(rng: &mut Rng) -> String {
     format!("{req}\t{obs}")
 }
 
+/// FileSource on a real file, call by call against the Lean model (`fsrc`): file length not necessarily a
+/// whole number of samples, data smaller and larger than the stream, every repeat mode.
+fn fsrc_case(rng: &mut Rng, idx: usize, dir: &std::path::Path) -> String {
+    let rep = *rng.pick(&[0u64, 1, 1, 2, 3, INF]);
+    let nbytes = match rng.below(4) {
+        0 => rng.range(0, 12),
+        1 => 4 * rng.range(0, 1100) + rng.below(4),
+        2 => 4096 + rng.below(9),
+        _ => rng.range(0, 9000),
+    };
+    let seed = rng.next() >> 8;
+    let bytes: Vec<u8> = gen_data(nbytes, seed, 256, &[]).iter().map(|v| *v as u8).collect();
+    let path = dir.join(format!("fsrc{idx}.bin"));
+    std::fs::write(&path, &bytes).unwrap();
+    let (mut b, o) = FileSource::<u32>::new(&path).unwrap();
+    b.repeat(repeat_of(rep));
+    let rig = Rig { block: Box::new(b), ins: vec![], outs: vec![drainer(o)] };
+    let mut acts = Vec::new();
+    for _ in 0..rng.range(1, 30) {
+        match rng.below(3) {
+            0 => acts.push(Act::Drain(0, *rng.pick(&[0usize, 1, 2, 100, 1000, 5000]))),
+            _ => acts.push(Act::Work),
+        }
+    }
+    let total = if rep == INF { 3 * 1024 } else { nbytes / 4 * rep as usize };
+    for _ in 0..(total / 1024 + 3) {
+        acts.push(Act::Work);
+        acts.push(Act::Work);
+        acts.push(Act::Drain(0, 100_000));
+    }
+    for _ in 0..(2 * rep.min(4) as usize + 2) {
+        acts.push(Act::Work);
+    }
+    let req = request("fsrc", &[rep, nbytes as u64, seed, 4], &rig, &[], &acts);
+    let obs = run_case(rig, &[], &acts);
+    format!("{req}\t{obs}")
+}
+
+/// SigMFSource (f32 recording) call by call against the Lean model (`sgsrc`).
+fn sgsrc_case(rng: &mut Rng, idx: usize, dir: &std::path::Path) -> String {
+    let rep = *rng.pick(&[0u64, 1, 1, 2, 3, INF]);
+    let nbytes = match rng.below(4) {
+        0 => rng.range(0, 12),
+        1 => 4 * rng.range(0, 1100) + rng.below(4),
+        2 => 4096 + rng.below(9),
+        _ => rng.range(0, 9000),
+    };
+    let seed = rng.next() >> 8;
+    let bytes: Vec<u8> = gen_data(nbytes, seed, 256, &[])
+        .iter()
+        .enumerate()
+        .map(|(i, v)| if i % 4 == 3 { (*v % 64) as u8 } else { *v as u8 })
+        .collect();
+    let base = dir.join(format!("sg{idx}"));
+    std::fs::write(dir.join(format!("sg{idx}-data")), &bytes).unwrap();
+    std::fs::write(
+        dir.join(format!("sg{idx}-meta")),
+        r#"{"global": {"core:datatype": "rf32_le", "core:version": "1.1.0"}, "captures": [], "annotations": []}"#,
+    )
+    .unwrap();
+    let (b, o) = match quiet(|| SigMFSourceBuilder::<f32>::new(base.clone()).repeat(repeat_of(rep)).build()) {
+        Ok(Ok(x)) => x,
+        Ok(Err(e)) => return format!("!src sgsrc #{idx}\tFAIL cannot open: {e}"),
+        Err(p) => return format!("!src sgsrc #{idx}\tFAIL panic in build: {p}"),
+    };
+    let rig = Rig { block: Box::new(b), ins: vec![], outs: vec![drainer(o)] };
+    let mut acts = Vec::new();
+    for _ in 0..rng.range(1, 30) {
+        match rng.below(3) {
+            0 => acts.push(Act::Drain(0, *rng.pick(&[0usize, 1, 2, 100, 1000, 5000]))),
+            _ => acts.push(Act::Work),
+        }
+    }
+    let total = if rep == INF { 3 * 1024 } else { nbytes / 4 * rep as usize };
+    for _ in 0..(total / 1024 + 3) {
+        acts.push(Act::Work);
+        acts.push(Act::Work);
+        acts.push(Act::Drain(0, 100_000));
+    }
+    for _ in 0..(2 * rep.min(4) as usize + 2) {
+        acts.push(Act::Work);
+    }
+    let req = request("sgsrc", &[rep, nbytes as u64, seed, 4], &rig, &[], &acts);
+    let obs = run_case(rig, &[], &acts);
+    format!("{req}\t{obs}")
+}
+
 /// The `Repeat` API: every call sequence over {again, done, count} up to a depth.
 fn repeat_lines(depth: usize) -> Vec<String> {
     let mut out = vec![];
@@ -306,6 +393,12 @@ pub fn run(args: &[String]) -> Vec<String> {
         out.push(sigmf_archive_case(&mut r, i, dir.path()));
         let mut r = rng.fork();
         out.push(sigmf_f32_case(&mut r, i, dir.path()));
+        for k in 0..3 {
+            let mut r = rng.fork();
+            out.push(fsrc_case(&mut r, 3 * i + k, dir.path()));
+            let mut r = rng.fork();
+            out.push(sgsrc_case(&mut r, 3 * i + k, dir.path()));
+        }
     }
     out
 }
